@@ -73,6 +73,7 @@ XAdvK(X, p, k, n) == IF k = 0 \/ p >= X.hi THEN <<p, n>> ELSE XAdvK(X, XNxt(X, p
 RECURSIVE XSkipWs(_, _)
 XSkipWs(X, p) == IF XTok(X, p) \in ClsWs THEN XSkipWs(X, p + 1) ELSE p
 RECURSIVE D(_, _, _, _, _)
+RECURSIVE DProg(_, _, _, _, _, _, _, _)
 RECURSIVE DPratt(_, _, _, _, _, _)
 RECURSIVE DPrattLoop(_, _, _, _, _, _, _, _)
 RECURSIVE DPrattPrefix(_, _, _, _, _, _, _)
@@ -271,6 +272,26 @@ DPratt(g, X, p, c, env, minp) ==
   IF ~first.ok THEN Fail({})
   ELSE DPrattLoop(g, X, p, first.end, c, env, minp, R(TRUE, first.end, first.val, first.em, {}))
 
+(* custom(|inp| program): the closure reads tokens, may remember one position and return to it -- which, backtracking   *)
+(* being atomic (C05), also forgets whatever was emitted since -- and may run sub-parsers in place.  q = position,        *)
+(* sv = <<saved position, emissions at the time>>.  The value is the span from the start to the final position.           *)
+DProg(g, X, p0, c, env, i, q, acc) ==       \* acc = [em, fl, sv]
+  LET ins == g[2] IN
+  IF i > Len(ins) THEN LET sp == XSpan(X, p0, q) IN R(TRUE, q, VSp(sp[1], sp[2]), acc.em, acc.fl)
+  ELSE LET o == ins[i]
+           t == XTok(X, q)
+           fail == Fail(acc.fl \cup {EvUser(X, p0, p0, q, "cu")})
+       IN CASE o[1] = "n" -> IF t = "" THEN fail ELSE DProg(g, X, p0, c, env, i + 1, XNxt(X, q), acc)
+            [] o[1] = "s" -> DProg(g, X, p0, c, env, i + 1, IF t = "" THEN q ELSE XNxt(X, q), acc)
+            [] o[1] = "p" -> IF t = o[2] THEN DProg(g, X, p0, c, env, i + 1, q, acc) ELSE fail
+            [] o[1] = "sv" -> DProg(g, X, p0, c, env, i + 1, q, [acc EXCEPT !.sv = <<q, Len(acc.em)>>])
+            [] o[1] = "rw" -> DProg(g, X, p0, c, env, i + 1, acc.sv[1], [acc EXCEPT !.em = SubSeq(@, 1, acc.sv[2])])
+            [] o[1] = "f" -> fail
+            [] o[1] \in {"sub", "chk"} ->
+                 LET r == D(g[3][o[2]], X, q, c, env) IN
+                 IF r.ok THEN DProg(g, X, p0, c, env, i + 1, r.end, [acc EXCEPT !.em = @ \o r.em, !.fl = @ \cup r.fl])
+                 ELSE Fail(acc.fl \cup r.fl)
+
 D(g, X, p, c, env) ==
   LET o == Op(g)
       t == XTok(X, p)
@@ -292,6 +313,7 @@ D(g, X, p, c, env) ==
          LET a == XAdvK(X, p, g[2], 0) IN
          IF a[2] = g[2] /\ g[3] THEN R(TRUE, a[1], VC(g[2]), <<>>, {})
          ELSE Fail({EvUser(X, p, p, a[1], "cu")})
+    [] o = "prog" -> DProg(g, X, p, c, env, 1, p, [em |-> <<>>, fl |-> {}, sv |-> <<p, 0>>])
     [] o = "newline" ->
          IF t = "R" THEN R(TRUE, IF XTok(X, p + 1) = "N" THEN p + 2 ELSE p + 1, VU, <<>>, {})
          ELSE IF t \in ClsNewline THEN R(TRUE, p + 1, VU, <<>>, {})
